@@ -2,6 +2,8 @@
 path forking over the enable masks: the sign of each symbolic sd decides its enable bit)."""
 import itertools
 
+import fractions
+Fr = fractions.Fraction
 LEVEL = 'other'
 PROP = 'C14'
 XYZ = 'xyz'
@@ -304,6 +306,64 @@ def section_noise(rep, mutate=None):
     return obls
 
 
+FROM_MODEL_CASES = [
+    # (scale_misal_sd pattern: 1 = enabled, bias_sd)  - asymmetric patterns on purpose
+    ([[1, 1, 0], [0, 1, 0], [0, 0, 0]], [0.0, 0.0, 0.02]),
+    ([[0, 0, 1], [0, 0, 0], [0, 1, 0]], [0.01, 0.0, 0.03]),
+    ([[1, 1, 1], [1, 1, 1], [1, 1, 1]], [0.01, 0.02, 0.03]),
+    ([[0, 0, 0], [0, 0, 0], [0, 0, 0]], [0.0, 0.02, 0.0]),
+]
+
+
+def section_from_model(rep, mutate=None):
+    """Parameters.from_EstimationModel with symbolic standard draws: the simulated transform and bias
+    are random with EXACTLY the standard deviations of the model, element by element (the variance
+    of entry (i, j) is scale_misal_sd[i, j]^2 - not that of the transposed entry), their means are
+    the nominal values, and noise / bias walk are handed through"""
+    import numpy as np
+    import z3
+    from .. import symreal as S, enga
+    obls = []
+    for ci, (pat, bsd) in enumerate(FROM_MODEL_CASES):
+        S.new_ctx()
+        m = enga.install()
+        if mutate:
+            mutate(m)
+        IS = m['IS']
+        J = S.J
+        sd = np.array([[1e-3 * (1 + 3 * i + j) if pat[i][j] else 0.0 for j in range(3)] for i in range(3)])
+        kw = {'scale_misal_sd': sd} if sd.any() else {}
+        model = IS.EstimationModel(bias_sd=np.array(bsd), noise=np.array([1e-3, 0.0, 2e-3]), bias_walk=np.array([0.0, 0.0, 1e-4]) if bsd[2] else 0, **kw)
+        rng = _UnitRNG(S)
+        par = IS.Parameters.from_EstimationModel(model, rng)
+        draws = []
+        for k in range(rng.k):
+            for shape in ((3, 3), (3,)):
+                for idx in np.ndindex(shape):
+                    draws.append(z3.Real('g%d_%s' % (k, '_'.join(map(str, idx)))))
+        zero_all = [(g, S.ZERO) for g in draws]
+        meta = {'check': 'from_model', 'params': {'case': ci}}
+        T = np.asarray(par.transform, dtype=object)
+        b = np.asarray(par.bias, dtype=object)
+        for i in range(3):
+            for j in range(3):
+                e = J(T[i, j])
+                mean = S.const(z3.simplify(z3.substitute(e.c0, *zero_all)))
+                var = sum((_coef(e, g) * _coef(e, g) for g in draws), J(0))
+                obls.append(enga.zero('case %d: mean of the simulated transform[%d,%d] = nominal' % (ci, i, j), mean - (1 if i == j else 0), 'Parameters.from_EstimationModel', meta=meta))
+                obls.append(enga.zero('case %d: variance of the simulated transform[%d,%d] = scale_misal_sd[%d,%d]^2 of the model' % (ci, i, j, i, j), var - S.const(S.rat(Fr(float(sd[i, j])) ** 2)), 'Parameters.from_EstimationModel', meta=meta))
+            e = J(b[i])
+            mean = S.const(z3.simplify(z3.substitute(e.c0, *zero_all)))
+            var = sum((_coef(e, g) * _coef(e, g) for g in draws), J(0))
+            obls.append(enga.zero('case %d: mean of the simulated bias[%d] = 0' % (ci, i), mean, 'Parameters.from_EstimationModel', meta=meta))
+            obls.append(enga.zero('case %d: variance of the simulated bias[%d] = bias_sd^2 of the model' % (ci, i), var - S.const(S.rat(Fr(float(bsd[i])) ** 2)), 'Parameters.from_EstimationModel', meta=meta))
+            obls.append(enga.zero('case %d: noise[%d] handed through' % (ci, i), J(np.asarray(par.noise, dtype=object)[i]) - S.const(S.rat(Fr(float(model.noise[i])))), 'Parameters.from_EstimationModel', meta=meta))
+            obls.append(enga.zero('case %d: bias walk[%d] handed through' % (ci, i), J(np.asarray(par.bias_walk, dtype=object)[i]) - S.const(S.rat(Fr(float(model.bias_walk[i])))), 'Parameters.from_EstimationModel', meta=meta))
+        rep.run.encode(IS.Parameters.from_EstimationModel)
+        yield obls
+        obls = []
+
+
 def _coef(e, g):
     """coefficient of the z3 variable g in the (linear in g) term e.c0"""
     import z3
@@ -443,7 +503,9 @@ def run(run):
     run.witness('both admissible and raising masks were reached', n_paths > 100)
     obls = section_noise(rep)
     rep.finish(rep.batch(obls), PROP)
-    rep.selfcheck(PROP, [{'check': 'noise', 'point': {}}] + [{'check': 'model', 'point': {}, 'params': {'bias': list(b), 'walk': list(w), 'noise': list(n_), 'sm': sm}}
+    for obls_fm in section_from_model(rep):
+        rep.finish(rep.batch(obls_fm), PROP)
+    rep.selfcheck(PROP, [{'check': 'from_model', 'point': {}}, {'check': 'noise', 'point': {}}] + [{'check': 'model', 'point': {}, 'params': {'bias': list(b), 'walk': list(w), 'noise': list(n_), 'sm': sm}}
                                                             for (b, w, n_, sm) in [((True, True, True), (True, False, True), (True, True, True), 0b100010001), ((True, False, True), (False, False, True), (False, True, False), 0b000000110),
                                                                                    ((False, False, False), (False, False, False), (False, False, False), 0), ((True, True, False), (False, False, True), (True, False, False), 0)]])
     for can in CANARIES:
@@ -474,6 +536,37 @@ def replay(spec):
     from pyins import inertial_sensor as IS
     pr = spec.get('params') or {}
     fails = []
+    if spec.get('check') == 'from_model':
+        # sample statistics of Parameters.from_EstimationModel against the model's standard deviations,
+        # entry by entry, for asymmetric enable patterns; and names of the simulator table = state names
+        import numpy as np
+        import pandas as pd
+        from pyins import inertial_sensor as IS_
+        fails = []
+        for ci, (pat, bsd) in enumerate(FROM_MODEL_CASES):
+            sd = np.array([[1e-3 * (1 + 3 * i + j) if pat[i][j] else 0.0 for j in range(3)] for i in range(3)])
+            kw = {'scale_misal_sd': sd} if sd.any() else {}
+            model = IS_.EstimationModel(bias_sd=np.array(bsd), noise=np.array([1e-3, 0.0, 2e-3]), bias_walk=np.array([0.0, 0.0, 1e-4]) if bsd[2] else 0, **kw)
+            rs = np.random.RandomState(7)
+            Ts, bs = [], []
+            for _ in range(400):
+                p_ = IS_.Parameters.from_EstimationModel(model, rs)
+                Ts.append(np.asarray(p_.transform, dtype=float) - np.eye(3))
+                bs.append(np.asarray(p_.bias, dtype=float))
+            Ts, bs = np.array(Ts), np.array(bs)
+            est = np.sqrt((Ts ** 2).mean(axis=0))
+            if np.any((sd == 0) & (np.abs(Ts).max(axis=0) > 0)) or np.any(np.abs(est - sd)[sd > 0] > 0.25 * sd[sd > 0]):
+                fails.append('case %d: simulated scale/misalignment errors do not have the standard deviations of the model entry by entry: rms %s vs model %s' % (ci, np.round(est, 5).tolist(), sd.tolist()))
+            bse = np.sqrt((bs ** 2).mean(axis=0))
+            if np.any((np.array(bsd) == 0) & (np.abs(bs).max(axis=0) > 0)) or np.any(np.abs(bse - bsd)[np.array(bsd) > 0] > 0.25 * np.array(bsd)[np.array(bsd) > 0]):
+                fails.append('case %d: simulated biases do not have the standard deviations of the model: rms %s vs %s' % (ci, bse.tolist(), bsd))
+            t_ = np.array([0.0, 0.01, 0.03, 0.04])
+            clean = pd.DataFrame(np.random.RandomState(1).randn(4, 3), index=t_, columns=['gyro_x', 'gyro_y', 'gyro_z'])
+            p_ = IS_.Parameters.from_EstimationModel(model, 3)
+            p_.apply(clean, 'rate')
+            if list(p_.data_frame.columns) != list(model.states):
+                fails.append('case %d: simulator table columns %s != state names %s' % (ci, list(p_.data_frame.columns), list(model.states)))
+        return {'violated': bool(fails), 'detail': fails[:4]}
     if spec.get('check') == 'noise':
         t = np.array([0.0, 0.02, 0.07])
         clean = pd.DataFrame(np.ones((3, 3)), index=t, columns=['gyro_x', 'gyro_y', 'gyro_z'])
@@ -567,4 +660,4 @@ RIM = {'lat': -84.6, 'lon': 150.0, 'alt': 15000.0, 'VN': 250.0, 'VE': -200.0, 'V
 
 def FALLBACK(tier):
     """numeric oracle specs put to the compiled code when the symbolic run is inconclusive (main.py)"""
-    return [{'check': 'noise', 'point': {}}] + [{'check': 'model', 'point': {}, 'params': {'bias': list(b), 'walk': list(w), 'noise': list(n_), 'sm': sm}} for (b, w, n_, sm) in [((True, True, True), (True, False, True), (True, True, True), 0b100010001), ((True, False, True), (False, False, True), (False, True, False), 0b000000110), ((False, False, False), (False, False, False), (False, False, False), 0), ((True, True, False), (False, False, True), (True, False, False), 0)]]
+    return [{'check': 'from_model', 'point': {}}, {'check': 'noise', 'point': {}}] + [{'check': 'model', 'point': {}, 'params': {'bias': list(b), 'walk': list(w), 'noise': list(n_), 'sm': sm}} for (b, w, n_, sm) in [((True, True, True), (True, False, True), (True, True, True), 0b100010001), ((True, False, True), (False, False, True), (False, True, False), 0b000000110), ((False, False, False), (False, False, False), (False, False, False), 0), ((True, True, False), (False, False, True), (True, False, False), 0)]]
